@@ -13,6 +13,7 @@
 #include <unistd.h>
 #include <fcntl.h>
 #include <sys/wait.h>
+#include <sys/resource.h>
 
 namespace vt {
 
@@ -89,13 +90,13 @@ inline void fault_exit(const char* kind) {
     _exit(0);
 }
 inline void on_signal(int sig) {
-    const char* k = sig == SIGSEGV ? "sigsegv" : sig == SIGFPE ? "sigfpe" : sig == SIGABRT ? "abort" : sig == SIGBUS ? "sigbus" : sig == SIGALRM ? "timeout" : "signal";
+    const char* k = sig == SIGSEGV ? "sigsegv" : sig == SIGFPE ? "sigfpe" : sig == SIGABRT ? "abort" : sig == SIGBUS ? "sigbus" : (sig == SIGALRM || sig == SIGXCPU) ? "timeout" : "signal";
     fault_exit(k);
 }
 inline void on_terminate() { fault_exit("terminate"); }
 inline void install_handlers() {
     std::set_terminate(on_terminate);
-    for (int s : {SIGSEGV, SIGFPE, SIGABRT, SIGBUS, SIGALRM}) {
+    for (int s : {SIGSEGV, SIGFPE, SIGABRT, SIGBUS, SIGALRM, SIGXCPU}) {
         struct sigaction sa; memset(&sa, 0, sizeof sa); sa.sa_handler = on_signal; sa.sa_flags = SA_NODEFER;
         sigaction(s, &sa, nullptr);
     }
@@ -109,7 +110,10 @@ template <class F> inline bool isolated(F fn, unsigned timeout_s = 20) {
     pid_t pid = fork();
     if (pid < 0) { perror("fork"); _exit(2); }
     if (pid == 0) {
-        alarm(timeout_s);
+        // the watchdog counts CPU seconds of the child (a loaded machine or a stalled disk must not look like a hang);
+        // a generous wall-clock alarm remains as a backstop for a child that blocks without using the CPU
+        { struct rlimit rl; rl.rlim_cur = timeout_s; rl.rlim_max = timeout_s + 5; setrlimit(RLIMIT_CPU, &rl); }
+        alarm(timeout_s * 20 + 120);
         fn();
         T().flush();
         _exit(0);
